@@ -1,6 +1,7 @@
 package main
 
 import (
+	"strings"
 	"encoding/json"
 	"fmt"
 	"os"
@@ -101,6 +102,15 @@ func writeEvidence(tier string, seed uint64, digest string, info map[string]inte
 		if cov.Base[i] != 0 {
 			base++
 		}
+	}
+	if dump := os.Getenv("VERIF_DUMP_COV"); dump != "" {
+		var lines []string
+		for i := 0; i < nsites && i < len(sj.Sites); i++ {
+			if cov.Exec[i] == 0 {
+				lines = append(lines, fmt.Sprintf("%s:%d\t%s\tflags=%d", sj.Sites[i].File, sj.Sites[i].Line, sj.Sites[i].Func, sj.Sites[i].Flags))
+			}
+		}
+		os.WriteFile(dump, []byte(strings.Join(lines, "\n")+"\n"), 0o644)
 	}
 	type fz struct {
 		File string `json:"file"`
